@@ -727,6 +727,9 @@ def probe(ctx):
             L = basis.shape[0]
             psi = nrng.normal(size=(dimA, L)) + 1j * nrng.normal(size=(dimA, L))
             psi /= np.linalg.norm(psi)
+            # the reduction is a sesquilinear map of the coefficients, not only of normalised ones: every other case is an unnormalised vector
+            if (dimA + dimB + k) % 2 == 0:
+                psi = psi * 1.75
             want = explicit_reduction(psi, basis, dimA, dimB, k)
             got = D_.partial_trace_ABk_to_AB(psi, Bij)
             Bt = [[torch.tensor(y0, dtype=y1) for y0, y1 in zip(x, [torch.int64, torch.int64, torch.complex128])] for x in Bij]
